@@ -187,6 +187,19 @@ class _Always(object):
         return xs[0]
 
 
+class _Fixed(object):
+    """an 'rng' for replays: never adds options, hands out the stored tree seed"""
+
+    def __init__(self, seed):
+        self.seed = seed
+
+    def random(self):
+        return 1.0
+
+    def randrange(self, n):
+        return self.seed
+
+
 class Unmodelable(Exception):
     pass
 
@@ -406,7 +419,7 @@ def check_native(rep, drv, case, rng, with_model=True, force_opts=False):
     ans = drv.ask('NATIVE_TO %s %s' % (gen.ty_sexp(t), gen.val_sexp(v)))
     rep.corr_checked += 1
     if ans != 'ok ' + impl_sx:
-        rep.disagree('NATIVE_TO', dict(case.replay), ans[:400], impl_sx[:400])
+        rep.disagree('NATIVE_TO', dict(case.replay, kind='native'), ans[:400], impl_sx[:400])
     # NATIVE_FROM on the encoder's own output
     ans = drv.ask('NATIVE_FROM %s %s' % (gen.ty_sexp(t), impl_sx))
     rep.corr_checked += 1
@@ -416,11 +429,12 @@ def check_native(rep, drv, case, rng, with_model=True, force_opts=False):
             mv = gen.val_of_sexp(gen.parse_sexps(ans[3:])[0])
         # the model keeps the exact REAL; the code goes through float: compare as (a)
         if mv is None or not equiv_float(t, a, mv, []):
-            rep.disagree('NATIVE_FROM', dict(case.replay, py=impl_sx[:300]), ans[:400], gen.val_sexp(a)[:400])
+            rep.disagree('NATIVE_FROM', dict(case.replay, kind='native', py=impl_sx[:300]), ans[:400], gen.val_sexp(a)[:400])
     # NATIVE_FROM on a plain tree in other accepted forms (bool for int, tuple for OID, missing DEFAULT keys ...)
     if rng is not None and not has_any(t):
         info = TreeInfo()
-        tr = build_tree(t, v, rng, 0.5, info)
+        ntseed = rng.randrange(1 << 30)
+        tr = build_tree(t, v, random.Random(ntseed), 0.5, info)
         if info.modelable and not has_finite_real(t, v) and 'bits:tuple' not in info.forms:
             try:
                 sx = py_sexp(t, tr)
@@ -437,12 +451,12 @@ def check_native(rep, drv, case, rng, with_model=True, force_opts=False):
                 a2 = ('err', codec.classify(e))
             if a2[0] == 'ok':
                 if not ans.startswith('ok ') or not gen.val_equiv(t, a2[1], gen.val_of_sexp(gen.parse_sexps(ans[3:])[0])):
-                    rep.disagree('NATIVE_FROM', dict(case.replay, py=sx[:300]), ans[:400], gen.val_sexp(a2[1])[:400])
+                    rep.disagree('NATIVE_FROM', dict(case.replay, kind='native-tree', py=sx[:300], tseed=ntseed), ans[:400], gen.val_sexp(a2[1])[:400])
                 elif not gen.val_equiv(t, a2[1], v):
                     rep.fail('native-decode-of-tree-differs', 'native decoder on an equivalent plain tree gives another value',
-                             dict(case.replay, kind='native-tree', tseed=0))
+                             dict(case.replay, kind='native-tree', tseed=ntseed))
             elif ans.startswith('ok '):
-                rep.disagree('NATIVE_FROM', dict(case.replay, py=sx[:300]), ans[:400], repr(a2))
+                rep.disagree('NATIVE_FROM', dict(case.replay, kind='native-tree', py=sx[:300], tseed=ntseed), ans[:400], repr(a2))
 
 
 def check_tree(rep, drv, case, rng, chunk, tseed, with_model=True):
@@ -455,7 +469,7 @@ def check_tree(rep, drv, case, rng, chunk, tseed, with_model=True):
         ans = drv.ask('TREE 0 %s %s' % (gen.ty_sexp(t), gen.val_sexp(v)))
         rep.corr_checked += 1
         if ans != 'ok ' + py_sexp(t, canon):
-            rep.disagree('TREE', dict(case.replay), ans[:400], py_sexp(t, canon)[:400])
+            rep.disagree('TREE', dict(case.replay, kind='tree'), ans[:400], py_sexp(t, canon)[:400])
         ginfo = TreeInfo()
         given = build_tree(t, v, _Always(), 1.0, ginfo)
         ans = drv.ask('TREE 1 %s %s' % (gen.ty_sexp(t), gen.val_sexp(v)))
@@ -552,13 +566,11 @@ def check_one(rep, drv, case, r):
     if kind.startswith('native'):
         check_native(rep, drv, case, None, with_model=True, force_opts=bool(r.get('options')))
         if kind == 'native-tree':
-            check_native(rep, drv, case, random.Random(r.get('tseed', 0)))
+            check_native(rep, drv, case, _Fixed(r.get('tseed', 0)))
     else:
         mode = r.get('mode')
         chunk = mode[2] if mode and mode[0] == 'ber' and mode[2] else 2
         check_tree(rep, drv, case, None, chunk, r.get('tseed', 0))
-    if 'py' in r and kind not in ('tree',) and not kind.startswith('native'):
-        pass
 
 
 # ----------------------------------------------------------------------------- corpus and specials
